@@ -134,12 +134,14 @@ def run(ctx):
         "modelled, not verified: ojg jp Get on the parent path, oj parse/render, mxj NewMapXml/ValuesForPath/SetValueForPath/Xml, encoding/base64",
     ]
     return ctx.finish(
-        level="exploration",
+        level="proof",
         rule="records with a unique sentinel at every leaf and nested JSON / XML / base64 documents built by the generator; path sets of "
              "size 1..4 over plain / bracket-key / indexed / negative-index / wildcard / descent / json-hop / xml-hop / two-hop / "
              "non-existing / hop-on-a-non-document / overlapping forms, every argument order for sets of at most three; "
              "non-trivial = the paths denote at least one location; distinct = distinct (query, record)",
-        assumptions=["records are JSON objects", "redact is reached through a query that evaluates to true"])
+        assumptions=["records are JSON objects", "redact is reached through a query that evaluates to true",
+                     "theorems are partial: one argument at a time, json() hops with at most one match in front of each hop; "
+                     "argument lists and xml() hops are covered by the oracle on the implementation only"])
 
 
 def replay_known(ctx):
@@ -187,7 +189,8 @@ def correspondence(ctx, cases, res, explained):
         terms = ["(%s,\n  [%s],\n  %s)" % (K.jv_term(rec), "; ".join(K.segs_term(sp) for sp in c["specs"]), K.jv_term(got)) for c, rec, got in chunk]
         src = (K.COQ_STR_HEAD + "Require Import V.Base.Prelude V.KflText.Macro V.KflText.RJv V.KflText.Redact V.KflText.RJson.\n" + K.COQ_STR_DEF +
                "Definition cases : list (jv * list (list seg) * jv) := [\n" + ";\n".join(terms) + "].\n"
-               "Definition chk (c : jv * list (list seg) * jv) := let '(r, args, out) := c in jv_eqb (redact_json r args) out.\n"
+               "Definition roundtrip (v : jv) := option_eqb jv_eqb (parse (render v)) (Some v) && option_eqb bytes_eqb (b64d (b64e (render v))) (Some (render v)) && option_eqb bytes_eqb (b64d (render v)) None.\n"
+               "Definition chk (c : jv * list (list seg) * jv) := let '(r, args, out) := c in jv_eqb (redact_json r args) out && roundtrip r && roundtrip out.\n"
                "Definition M := Eval vm_compute in failing chk cases.\nPrint M.\n")
         rc, out = ctx.coq_run("redact_cases_%d" % k, src)
         idx = vlib.parse_coq_list_of_nat(out, "M")
